@@ -70,7 +70,7 @@ func ValueToJson(arena *fastjson.Arena, t octosql.Type, value octosql.Value) *fa
 			return arena.NewFalse()
 		}
 	case octosql.TypeIDString:
-		return arena.NewString(value.Str)
+		return jsonString(arena, value.Str)
 	case octosql.TypeIDTime:
 		return arena.NewString(value.Time.Format(time.RFC3339))
 	case octosql.TypeIDDuration:
@@ -100,4 +100,42 @@ func ValueToJson(arena *fastjson.Arena, t octosql.Type, value octosql.Value) *fa
 
 func (t *JSONFormatter) Close() error {
 	return nil
+}
+
+// jsonString returns a JSON string value for s. fastjson escapes every string that contains a
+// quote, a backslash or a control character with strconv.AppendQuote, i.e. in Go syntax (\x01,
+// \a, \v, \xff, \U0001f600), which is not JSON. Such strings are escaped here and handed to
+// fastjson as pre-rendered text (NewNumberString values are marshalled verbatim).
+func jsonString(arena *fastjson.Arena, s string) *fastjson.Value {
+	special := false
+	for i := 0; i < len(s); i++ {
+		if c := s[i]; c < 0x20 || c == '"' || c == '\\' {
+			special = true
+			break
+		}
+	}
+	if !special {
+		return arena.NewString(s)
+	}
+	const hex = "0123456789abcdef"
+	buf := make([]byte, 0, len(s)+8)
+	buf = append(buf, '"')
+	for i := 0; i < len(s); i++ {
+		switch c := s[i]; {
+		case c == '"' || c == '\\':
+			buf = append(buf, '\\', c)
+		case c == '\n':
+			buf = append(buf, '\\', 'n')
+		case c == '\r':
+			buf = append(buf, '\\', 'r')
+		case c == '\t':
+			buf = append(buf, '\\', 't')
+		case c < 0x20:
+			buf = append(buf, '\\', 'u', '0', '0', hex[c>>4], hex[c&0xf])
+		default:
+			buf = append(buf, c)
+		}
+	}
+	buf = append(buf, '"')
+	return arena.NewNumberString(string(buf))
 }
